@@ -26,6 +26,16 @@ long enc_unstable_count();  // re-evaluations that disagreed with the cached ent
 // re-assemble a cached line again (different fill, later moment) and compare with the table
 bool enc_recheck(const std::string &line, int opts, int fill);
 
+// ---- geometry of the library-managed buffer, observed on the tree under test -------------------------
+// initial capacity and growth step as the library asks the simulated OS for them (6020 / 6000 on the
+// pinned tree); nothing in the generators or oracles hard-codes them
+struct LibGeometry {
+  long initial = 6020;  // length of the first mapping
+  long step = 6000;     // by how much the first growth extends it
+  bool observed = false;
+};
+const LibGeometry &lib_geometry();
+
 // ---- NOP decoder ------------------------------------------------------------------------------
 // length of one valid x86 NOP instruction starting at p (at most `avail` bytes), 0 if none:
 //   66* 90          |  66* 0F 1F /0 (any ModRM/SIB/disp form)
